@@ -11,7 +11,8 @@ BENIGN = len(sys.argv) > 2 and sys.argv[2] == "benign"
 ROUND2 = len(sys.argv) > 2 and sys.argv[2] == "round2"
 ROUND3 = len(sys.argv) > 2 and sys.argv[2] == "round3"
 ROUND4 = len(sys.argv) > 2 and sys.argv[2] == "round4"
-suffix = "_r2" if ROUND2 else ("_r3" if ROUND3 else ("_bn" if BENIGN else ("_r4" if ROUND4 else "")))
+ROUND5 = len(sys.argv) > 2 and sys.argv[2] == "round5"
+suffix = "_r2" if ROUND2 else ("_r3" if ROUND3 else ("_bn" if BENIGN else ("_r4" if ROUND4 else ("_r5" if ROUND5 else ""))))
 root = os.path.dirname(os.path.dirname(os.path.abspath(__file__)))
 prop = next(json.loads(l) for l in open(os.path.join(root, "properties.jsonl")) if json.loads(l)["id"] == pid)
 wt = f"/tmp/mut_{pid}{suffix}"
@@ -46,6 +47,27 @@ Your task: produce THREE independent HARMLESS changes to the code the property i
 For each change i in {{1,2,3}} deliver, under {wt}/_mutation/m<i>/ : patch.diff (`git diff` of ONLY that change against HEAD; make change 1, save its diff, `git checkout -- .`, then the next), and README.md (what was changed and the argument why behaviour is unchanged; the test-suite tail with the change). Also write ONE program {wt}/_mutation/demo.py exercising the changed code paths through the public API with fixed seeds (np.random.seed) and printing a digest (e.g. a hash of all observations / states / outputs over a few hundred operations); run it on the clean checkout and with each change applied and confirm in each README that the digest is IDENTICAL (if `abmarl.sim.wrappers` is needed: gymnasium 1.3 lacks `gymnasium.spaces.box.get_inf`, define it before importing: `import gymnasium.spaces.box as b; import numpy as np; b.get_inf = getattr(b,'get_inf', lambda dtype, sign: (np.inf if sign=='+' else -np.inf) if np.dtype(dtype).kind=='f' else (np.iinfo(dtype).max-2 if sign=='+' else np.iinfo(dtype).min+2))`; run as `PYTHONPATH=<checkout> /venv/bin/python demo.py`).
 Leave the worktree clean (`git checkout -- .`; `_mutation/` stays, untracked). Keep scratch files inside {wt}/_mutation/.
 In your final message give, per change, a two-line summary (site, what changed).""")
+    sys.exit(0)
+if ROUND5:
+    print(f"""You are helping to measure a verification effort. You get ONE semantic property of the Python package LLNL/Abmarl and your own scratch git worktree of its repository at {wt} (a detached checkout; work ONLY there; do NOT read or use anything under /verif or /repo).
+
+The property:
+-----
+{pid} — {prop['title']}
+
+{prop['statement']}
+
+Quantified over: {prop['quantifier']['text']}
+
+Code it is anchored in: {files}
+-----
+
+Your task: produce FIVE independent ORDINARY defects ("mutants") - the everyday slips of a maintainer, not exotic constructions: an off-by-one, `<` for `<=`, a wrong variable of two similar ones, swapped arguments, a negated or dropped condition, `and` for `or`, a statement moved into or out of a loop or an `if`, a forgotten update of one of two fields, a wrong default, `==` on the wrong pair, an early `return`/`continue`/`break`, an index `[0]` for `[1]`, `min` for `max`, a copy dropped or added. Each must
+  (1) BREAK the property above for some reasonably ordinary input or history (no need for rare conjunctions),
+  (2) leave the repository's test suite exactly as it was: `cd {wt} && /venv/bin/python -m pytest -q -p no:cacheprovider --timeout=900 --continue-on-collection-errors 2>&1 | tail -3` gives `1 failed, 155 passed, 12 errors` on the unchanged tree and must give the same with the change (if a candidate makes a test fail, drop it and take another),
+  (3) be a change of ONE to THREE lines at ONE site, each of the five in a DIFFERENT function or method (spread them over the anchored files; one of the five may be in a helper outside them).
+For each change i in 1..5 deliver under {wt}/_mutation/m<i>/ : patch.diff (`git diff` of ONLY that change against HEAD; apply it, save the diff, `git checkout -- .`, next), demo.py (standalone, run as `PYTHONPATH=<checkout> /venv/bin/python demo.py`, exits 0 on the unchanged checkout and non-zero with a clear assertion message with the change applied, showing the property violated through the public API; if you need `abmarl.sim.wrappers` or `abmarl.external`, gymnasium 1.3 lacks `gymnasium.spaces.box.get_inf`: define it before importing: `import gymnasium.spaces.box as b; import numpy as np; b.get_inf = getattr(b,'get_inf', lambda dtype, sign: (np.inf if sign=='+' else -np.inf) if np.dtype(dtype).kind=='f' else (np.iinfo(dtype).max-2 if sign=='+' else np.iinfo(dtype).min+2))`), and README.md (one paragraph: site, what was changed, which clause breaks, the test-suite tail with the change). Verify each at the end: clean checkout -> demo exits 0; `git apply` -> suite unchanged, demo fails; `git checkout -- .`. Leave the worktree clean (`_mutation/` stays, untracked). Keep scratch files inside {wt}/_mutation/. Work quickly: aim to finish within 30 minutes.
+In your final message give one line per change (site, change).""")
     sys.exit(0)
 print(f"""You are helping to evaluate a verification effort by playing the adversary. You get ONE semantic property of the Python package LLNL/Abmarl and your own scratch git worktree of its repository at {wt} (a detached checkout; work ONLY there; do NOT read or use anything under /verif or /repo — what you write must be independent of any existing checker).
 
